@@ -19,7 +19,7 @@ def one(diff):
             if r.returncode:
                 out["error"] = "does not apply"; return out
         bad = []
-        for pid in srctie.KERNELS:
+        for pid in (os.environ.get("TIE_PIDS","").split(",") if os.environ.get("TIE_PIDS") else srctie.KERNELS):
             sc = os.path.join(common.SCRATCH_ROOT, "trytie_%s_%s" % (tag, pid)); os.makedirs(sc, exist_ok=True)
             res = srctie.check(wt, pid, sc, common.COQ, common.COQ_Q)
             for k in res["kernels"]:
